@@ -2,6 +2,7 @@ package harness
 
 import (
 	"fmt"
+	"math"
 	"sort"
 	"strings"
 
@@ -393,6 +394,21 @@ func (m *machine) Step(op Op) error {
 		}
 		n.elems = rev
 		m.noteMutation(n)
+
+	case "sortrun":
+		// a homogeneous run of values (near-equal big ints, adjacent floats, duplicates) added to one
+		// list - emptied first in two cases out of three - and sorted straight away, so that Sort
+		// inside its domain is a common event and not the lucky outcome of unrelated Adds
+		if op.A%3 != 0 {
+			if err := m.Step(Op{Op: "clear", T: op.T}); err != nil {
+				return err
+			}
+		}
+		if err := m.Step(Op{Op: "add", T: op.T, Vals: op.Vals}); err != nil {
+			return err
+		}
+		m.st.Count("sortrun")
+		return m.Step(Op{Op: "sort", T: op.T})
 
 	case "sort":
 		n := m.list(op.T)
@@ -977,8 +993,8 @@ func genRawSlice(t *rapid.T, lo, hi int) []int {
 	return out
 }
 
-var listOpNames = []string{"addmany", "add", "insert", "replace", "delete", "deletemulti", "pop", "clear", "reverse", "sort", "sublist", "concat", "getters", "contains", "newlist", "newlistof", "newlistfrom"}
-var listOpWeights = []int{6, 22, 10, 7, 6, 3, 5, 1, 4, 5, 9, 9, 5, 6, 4, 2, 4}
+var listOpNames = []string{"addmany", "add", "insert", "replace", "delete", "deletemulti", "pop", "clear", "reverse", "sort", "sublist", "concat", "getters", "contains", "newlist", "newlistof", "newlistfrom", "sortrun"}
+var listOpWeights = []int{6, 22, 10, 7, 6, 3, 5, 1, 4, 5, 9, 9, 5, 6, 4, 2, 4, 4}
 
 var objectOpNames = []string{"set", "unset", "oclear", "merge", "pluck", "ogetters", "ocontains", "newobject", "newobjectfrom"}
 var objectOpWeights = []int{24, 9, 1, 10, 9, 8, 8, 6, 5}
@@ -999,8 +1015,66 @@ func genListOp(t *rapid.T) Op {
 		op.Flavor = drawInt(t, 0, 6, "flavor")
 	case "deletemulti":
 		op.Idx = genRawSlice(t, 0, 3)
+	case "sortrun":
+		op.Vals = genHomogVals(t)
 	}
 	return op
+}
+
+// genHomogVals draws 2-12 values of one sortable kind in arbitrary order: small values with
+// duplicates, clusters of neighbouring values around a large magnitude (ints beyond 2^53 that are
+// distinct as ints but not as float64, adjacent floats), or the general scalar generators.
+func genHomogVals(t *rapid.T) []ValSpec {
+	n := drawInt(t, 2, 12, "nrun")
+	out := make([]ValSpec, n)
+	kind := pick(t, "runkind", 5, 3, 3)
+	mode := pick(t, "runmode", 3, 4, 3)
+	ibase := []int64{1 << 53, -(1 << 53), math.MaxInt64 - 4, math.MinInt64 + 4, 1 << 62, -(1 << 62), 1<<60 + 12345, 1 << 31, 0}[drawIdx(t, 9, "ibase")]
+	fbase := []float64{1, 1e16, -1e16, 0.1, 1e300, -5e-324, 9007199254740992}[drawIdx(t, 7, "fbase")]
+	for i := range out {
+		switch kind {
+		case 0:
+			switch mode {
+			case 0:
+				out[i] = ValSpec{K: KInt, I: int64(drawInt(t, -3, 3, "i"))}
+			case 1:
+				out[i] = ValSpec{K: KInt, I: ibase + int64(drawInt(t, -4, 4, "off"))}
+			default:
+				v, _ := GenInt(t)
+				out[i] = ValSpec{K: KInt, I: int64(v)}
+			}
+		case 1:
+			var f float64
+			switch mode {
+			case 0:
+				f = float64(drawInt(t, -6, 6, "f")) / 2
+			case 1:
+				f = fbase
+				for k := drawInt(t, -3, 3, "ulps"); k != 0; {
+					if k > 0 {
+						f = math.Nextafter(f, math.Inf(1))
+						k--
+					} else {
+						f = math.Nextafter(f, math.Inf(-1))
+						k++
+					}
+				}
+			default:
+				f, _ = GenFloat(t)
+				if f != f {
+					f = 0
+				}
+			}
+			out[i] = ValSpec{K: KFloat, F: math.Float64bits(f)}
+		default:
+			if mode == 0 {
+				out[i] = ValSpec{K: KString, S: smallStrings[drawIdx(t, len(smallStrings), "s")]}
+			} else {
+				out[i] = ValSpec{K: KString, S: GenString(t, 6)}
+			}
+		}
+	}
+	return out
 }
 
 func genObjectOp(t *rapid.T) Op {
